@@ -167,3 +167,28 @@ pub mod wire {
 		})
 	}
 }
+
+/// Step kinds of a [`crate::chain::channelmonitor::ChannelMonitorUpdate`] (the `updates` field is
+/// crate-private), so that the harness can tie each released message to the update it depends on.
+pub fn monitor_update_step_kinds(
+	update: &crate::chain::channelmonitor::ChannelMonitorUpdate,
+) -> Vec<&'static str> {
+	use crate::chain::channelmonitor::ChannelMonitorUpdateStep as S;
+	update
+		.updates
+		.iter()
+		.map(|s| match s {
+			S::LatestHolderCommitmentTXInfo { .. } => "HolderCommitmentTXInfo",
+			S::LatestHolderCommitment { .. } => "HolderCommitment",
+			S::LatestCounterpartyCommitmentTXInfo { .. } => "CounterpartyCommitmentTXInfo",
+			S::LatestCounterpartyCommitment { .. } => "CounterpartyCommitment",
+			S::PaymentPreimage { .. } => "PaymentPreimage",
+			S::CommitmentSecret { .. } => "CommitmentSecret",
+			S::ChannelForceClosed { .. } => "ChannelForceClosed",
+			S::ShutdownScript { .. } => "ShutdownScript",
+			S::RenegotiatedFunding { .. } => "RenegotiatedFunding",
+			S::RenegotiatedFundingLocked { .. } => "RenegotiatedFundingLocked",
+			S::ReleasePaymentComplete { .. } => "ReleasePaymentComplete",
+		})
+		.collect()
+}
